@@ -98,6 +98,31 @@ def is_concrete_bool(t):
     return z3.is_true(s) or z3.is_false(s)
 
 
+def through_json(I, v, problems, depth=0):
+    """the value json.loads(json.dumps(v)) gives back, on the engine's values"""
+    from .codec import SJsonTok
+
+    if isinstance(v, STuple):
+        return SList([through_json(I, x, problems, depth + 1) for x in v.items])
+    if isinstance(v, SList):
+        return SList([through_json(I, x, problems, depth + 1) for x in v.items])
+    if isinstance(v, SDict):
+        out = []
+        for k, x in v.entries:
+            if not isinstance(k, SStr):
+                problems.append(f"JSON object key of kind {k.kind}")
+            out.append((k, through_json(I, x, problems, depth + 1)))
+        d = SDict(out)
+        return d
+    if isinstance(v, SSet) or (isinstance(v, ZVal) and isinstance(v.ty, TSet)):
+        problems.append("a set is not JSON-encodable")
+        return v
+    if isinstance(v, SObj):
+        problems.append(f"an object ({v.name}) is not JSON-encodable")
+        return v
+    return v
+
+
 class CodecTarget(Target):
     """round trip of cls.write / cls.read on the pinned view
 
@@ -108,7 +133,7 @@ class CodecTarget(Target):
 
     def __init__(self, id, cls, *, view=None, transient=None, read_skips_tag=True, field_types=None, nested_readers=(), extra_overrides=None,
                  read_args=None, requires=None, note="", deterministic=False, field_invs=None, writer="write", reader="read", timeout=600,
-                 construct=False, after_construct=None, init_types=None, write_args=None, ordered_dicts=None):
+                 construct=False, after_construct=None, init_types=None, write_args=None, ordered_dicts=None, json=False):
         self.cls = cls
         self.view = view or {}
         self.transient = transient or {}
@@ -123,7 +148,12 @@ class CodecTarget(Target):
         self.init_types = init_types or {}
         self.write_args = write_args  # fn(I, env) -> extra positional arguments of the writer
         self.ordered_dicts = ordered_dicts or {}  # field -> why the insertion order of that dict is observable
+        self.json = json  # serialize() / deserialize() round trip through a JSON value instead of a byte buffer
         ov = prim_overrides()
+        if json:
+            from .codec import json_flag_overrides
+
+            ov.update(json_flag_overrides())
         ov.update(extra_overrides or {})
         super().__init__(id, f"{cls.__module__}:{cls.__qualname__}.{writer}", self.setup_rt, ensures=[("dummy", lambda I, env, r: None)], raises=(),
                          overrides=ov, field_types=field_types, note=note, field_invs=field_invs, timeout=timeout)
@@ -148,8 +178,9 @@ class CodecTarget(Target):
                 self_obj = I.make(TObj(cls), "self")
                 self_obj.cands = [cls]
             I.codec.root = self_obj
+            I.codec.json = outer.json
             buf = SBuf()
-            env = {"args": [self_obj, buf], "self": self_obj, "buf": buf}
+            env = {"args": [self_obj] if outer.json else [self_obj, buf], "self": self_obj, "buf": buf}
             if outer.write_args:
                 env["args"] = env["args"] + list(outer.write_args(I, env))
             if outer.requires:
@@ -199,6 +230,17 @@ class CodecTarget(Target):
             import mypy.types  # noqa: F401  (nodes.write refers to mypy.types lazily)
             from mypy.cache import ReadBuffer, WriteBuffer, read_tag
 
+            if self.json:
+                from mypy.util import json_dumps, json_loads
+
+                try:
+                    text = json_dumps(getattr(obj, self.writer_name)())
+                except BaseException as e:  # noqa: BLE001
+                    out["note"] = f"the native object could not be serialized (incomplete nested objects): {type(e).__name__}: {str(e)[:120]}"
+                    return out
+                extra = [nz.nat(a) for a in self.read_args(I, env)] if self.read_args else []
+                R = getattr(self.cls, self.reader_name)(json_loads(text), *extra)
+                return self.native_compare(obj, R, ob, out)
             buf = WriteBuffer()
             try:
                 getattr(obj, self.writer_name)(buf)
@@ -216,6 +258,11 @@ class CodecTarget(Target):
             out["observed"] = {"raised": type(e).__name__, "message": str(e)[:200]}
             out["confirmed"] = ob.name.startswith("codec/reader-accepts-writer-output") or ob.name.startswith("raises/")
             return out
+        return self.native_compare(obj, R, ob, out)
+
+    def native_compare(self, obj, R, ob, out):
+        from .native import show
+
         if ob.name.startswith("codec/view/"):
             slot = ob.name.split("/")[-1]
             getter = self.view.get(slot)
@@ -305,6 +352,8 @@ class CodecTarget(Target):
                 if kind == "dict-order" and self.deterministic != "strict":
                     continue  # dicts iterate in insertion order: a function of how the value was built
                 ctx.oblige(f"codec/deterministic-bytes/{kind}", z3.BoolVal(False), kind="codec", where=f"writer iterates {what} in container order")
+        if self.json:
+            return self.after_serialize(I, env, result, where)
         if self.read_skips_tag:
             if not toks or toks[0][0] != "tag":
                 ctx.oblige("codec/writer-starts-with-class-tag", z3.BoolVal(False), kind="codec", where=where)
@@ -328,10 +377,50 @@ class CodecTarget(Target):
         if not ctx.is_sat():
             return
         ctx.oblige("codec/all-tokens-consumed", z3.BoolVal(rbuf.pos == len(rbuf.tokens)), kind="codec", where=f"{where}: {len(rbuf.tokens) - rbuf.pos} token(s) left over")
+        self.compare_views(I, env, R, where)
+
+    def after_serialize(self, I, env, result, where):
+        """JSON mode: the value serialize() returned goes through JSON (tuples come back as lists, object
+        keys must be strings, sets cannot be encoded) and is handed to deserialize()"""
+        ctx = I.ctx
+        cls = self.cls
+        problems = []
+        data = through_json(I, result, problems)
+        for pr in problems:
+            ctx.oblige("codec/json-encodable", z3.BoolVal(False), kind="codec", where=f"{where}: {pr}")
+        if problems:
+            return
+        if isinstance(data, SDict):
+            # deserialize_type / SymbolNode.deserialize dispatch on the ".class" member by class name
+            tag = [x for k, x in data.entries if isinstance(k, SStr) and z3.is_string_value(simp(k.t)) and simp(k.t).as_string() == ".class"]
+            if tag:
+                ok = isinstance(tag[0], SStr) and z3.is_string_value(simp(tag[0].t)) and simp(tag[0].t).as_string() == cls.__name__
+                ctx.oblige("codec/json-class-member-names-the-class", z3.BoolVal(bool(ok)), kind="codec", where=where)
+        reader = inspect.getattr_static(cls, self.reader_name)
+        fn = reader.__func__ if isinstance(reader, (classmethod, staticmethod)) else reader
+        args = [SFunc(cls), data] if isinstance(reader, classmethod) else [data]
+        if self.read_args:
+            args = args + list(self.read_args(I, env))
+        try:
+            R = I.call_function(fn, args, {})
+        except PyExc as e:
+            if not ctx.is_sat():
+                return
+            ctx.oblige(f"codec/reader-accepts-writer-output/{e.cls.__name__}", z3.BoolVal(False), kind="codec", where=f"{where}: {e.msg} {e.where}")
+            return
+        if not ctx.is_sat():
+            return
+        self.compare_views(I, env, R, where)
+
+    def compare_views(self, I, env, R, where):
+        ctx = I.ctx
+        cls = self.cls
         R = I.unopt(R)
         if not isinstance(R, SObj):
             ctx.oblige("codec/reader-returns-an-object", z3.BoolVal(False), kind="codec", where=where)
             return
+        if self.json:
+            ctx.oblige("codec/reloaded-object-has-the-written-class", z3.BoolVal(R.cands == [cls]), kind="codec", where=where)
         self_obj = env["self"]
         slots = all_slots(cls) or sorted(instance_fields(cls))
         # every slot is either in the view or declared transient
